@@ -106,6 +106,7 @@ def gen(rng, tier):
         # authentication
         r0 = bytearray(R()); r0[rng.randrange(len(r0) - 33, len(r0))] ^= 1
         yield line(s, to, None, ver, bytes(r0), "mac-does-not-verify")
+        yield line(s, to, None, ver, pdu.drop_mac(R()), "mac-absent")                   # well-formed and honest in every other respect
         r0 = bytearray(R()); pos = r0.find(root[1:9]);
         if pos > 0:
             r0[pos] ^= 0x10
